@@ -32,13 +32,22 @@
      host_port_post dbg hd u u' h np   the same with port u' = np instead of port u' = port u
      q_host_port sch rem  what the text behind the host says about the port in quirks::set_host: None = nothing
                           usable (the old port stays), Some p = parse_port (setter context) returned p
+     stype u              scheme_type_of (the scheme text of u): the scheme type the parser works with
+     plainc sp c          c is not TAB/LF/CR, not '@', not '/', '?', '#' (nor '\' when sp: special scheme) - the
+                          characters the first pass of parse_userinfo walks over (C02_AuthParts.v)
+     hostc sp c           c is not TAB/LF/CR, none of ':' '/' '?' '#' '[' ']' (nor '\' when sp)
+     qh_tail X / h_tail X / pe_ok X / host_tail sp X   the rest of the input X is empty or starts with '?' or '#' / with '#' /
+                          with a path delimiter / with a character at which the host scan stops
+     after_hash X         None for the empty X, otherwise what follows its first character
+     pw_text pw           ':' pw for Some pw, nothing for None
+     clean S t            every byte of t is kept (not percent-encoded) by the encode set S (C02_Enc.v)
    All theorems are for both build configurations (dbg) and for arbitrary host functions. *)
 From RU Require Import Base.Prelude Base.Utf8 Model.AsciiSet Gen.Tables Model.PercentEncoding
   Model.HostT Model.UrlRecord Model.Parser Model.Setters Model.WF
-  Proofs.ListN Proofs.C03_WF Proofs.C06_List Proofs.C06_WFI Proofs.C06_Tail Proofs.C06_Steps Proofs.C06_Suffix
+  Proofs.ListN Proofs.C14_Set Proofs.C02_Enc Proofs.C02_AuthParts Proofs.C03_WF Proofs.C06_List Proofs.C06_WFI Proofs.C06_Tail Proofs.C06_Steps Proofs.C06_Suffix
   Proofs.C06_Front Proofs.C06_Atomic Proofs.C06_FragQuery Proofs.C06_Port Proofs.C06_Cred Proofs.C06_Scheme
   Proofs.C06_HostNone Proofs.C06_Host Proofs.C06_PathParser Proofs.C06_Path Proofs.C06_Segments Proofs.C06_PathNoAuth Proofs.C06_Main
-  Proofs.C06_PathMore Proofs.C03_ReachParts Proofs.C06_Quirks.
+  Proofs.C06_PathMore Proofs.C03_ReachParts Proofs.C06_Quirks Proofs.C06_Agree Proofs.C06_AgreeSet.
 
 (* 1. a mutator that reports failure returns the record unchanged (hence as_str() byte for byte).
    No premise at all: every record, every argument, all thirteen status-returning mutators. *)
@@ -519,3 +528,111 @@ Example C06_quirks_inhabited :
   /\ (exists u', set_host true qx_hp qx_hp qx_hd qx_u (Some [120; 58; 49]) = Some (u', SOk)
                   /\ ser u' = [97;58;47;47;120;58;56;48;47;112;63;113;35;102]).
 Proof. split; [exact qx_fns_ok | exact quirks_inhabited]. Qed.
+
+(* 15. parser agreement, state by state.  For each setter: after a successful call the component reads as C
+   (C06_get), and the parser state that reads this component (context UrlParser), run on the ARGUMENT text
+   standing at that position - behind any serialization prefix, in front of any rest X of the input that
+   starts with a delimiter ending the component - writes exactly C and hands X on.  Arguments are free of
+   the characters that end the component in the parser (the exclusions are exact in this sense: such a
+   character makes the parser stop earlier while the setter encodes it).
+   What is NOT composed here: Parser::parse_url on the whole spliced text (it needs the other components
+   of the old serialization to be fixpoints of their states: C02's L3 classes). *)
+Theorem C06_parser_agreement_set_fragment : forall dbg u x u', wfh u -> set_fragment dbg u (Some x) = Some u' ->
+  exists F, fragment dbg u' = Some (Some F)
+    /\ forall ovr st se ser, nlen ser <= U32_MAX_P ->
+         parse_query_and_fragment ovr CUrlParser st se ser (35 :: x) = POk (ser ++ 35 :: F, None, Some (nlen ser)).
+Proof. intros dbg. exact (agree_fragment dbg (fun _ => [])). Qed.
+Print Assumptions C06_parser_agreement_set_fragment.
+
+(* argument free of '#' *)
+Theorem C06_parser_agreement_set_query : forall dbg u x u', wfh u -> usv_list x -> forallb no_h x = true ->
+  set_query dbg u (Some x) = Some u' ->
+  exists Q, query dbg u' = Some (Some Q)
+    /\ forall se ser X, h_tail X -> nlen ser <= U32_MAX_P -> nlen (ser ++ 63 :: Q) <= U32_MAX_P ->
+         parse_query_and_fragment None CUrlParser (stype u) se ser (63 :: x ++ X)
+         = POk (match after_hash X with
+                | None => (ser ++ 63 :: Q, Some (nlen ser), None)
+                | Some r => ((ser ++ 63 :: Q) ++ 35 :: tnl_text T_FRAGMENT r, Some (nlen ser), Some (nlen (ser ++ 63 :: Q)))
+                end).
+Proof. intros dbg. exact (agree_query dbg (fun _ => [])). Qed.
+Print Assumptions C06_parser_agreement_set_query.
+
+(* any u16; the default port of the scheme reads back as None on both sides *)
+Theorem C06_parser_agreement_set_port : forall dbg u p u', wfh u -> p <= 65535 -> set_port dbg u (Some p) = Some (u', SOk) ->
+  exists sch, scheme u = Some sch
+    /\ forall X, pe_ok X -> parse_port CUrlParser (default_port sch) (decimal p ++ X) = POk (port u', X).
+Proof. intros dbg. exact (agree_port dbg (fun _ => [])). Qed.
+Print Assumptions C06_parser_agreement_set_port.
+
+(* argument non-empty, free of TAB/LF/CR, '@' and the authority delimiters; u0 = any clean username in front *)
+Theorem C06_parser_agreement_set_password : forall dbg u y u', wfh u -> usv_list y -> y <> [] ->
+  forallb (plainc (st_is_special (stype u))) y = true ->
+  set_password dbg u (Some y) = Some (u', SOk) ->
+  exists P, password dbg u' = Some (Some P)
+    /\ forall A u0 X, clean T_USERINFO u0 = true ->
+         (forall count last, scan_last_at (st_is_special (stype u)) X count last = last) ->
+         nlen A + nlen u0 <= U32_MAX_P ->
+         parse_userinfo (stype u) A (u0 ++ 58 :: y ++ 64 :: X) = POk (A ++ u0 ++ 58 :: P ++ [64], nlen A + nlen u0, X).
+Proof. intros dbg. exact (agree_password dbg (fun _ => [])). Qed.
+Print Assumptions C06_parser_agreement_set_password.
+
+(* argument free of TAB/LF/CR, ':', '@' and the authority delimiters; pw = any clean password behind it;
+   the stored username is clean for USERINFO (true of parsed URLs, C05; used only for the code's shortcut
+   "the argument is the stored text") *)
+Theorem C06_parser_agreement_set_username : forall dbg u x u', wfh u -> usv_list x ->
+  forallb (fun c => plainc (st_is_special (stype u)) c && negb (c =? 58)) x = true ->
+  (forall cur, username dbg u = Some cur -> clean T_USERINFO cur = true) ->
+  set_username dbg u x = Some (u', SOk) ->
+  exists U, username dbg u' = Some U
+    /\ forall A pw X, match pw with Some p => clean T_USERINFO p = true /\ p <> [] | None => x <> [] end ->
+         (forall count last, scan_last_at (st_is_special (stype u)) X count last = last) ->
+         nlen A + nlen U <= U32_MAX_P ->
+         parse_userinfo (stype u) A (x ++ pw_text pw ++ 64 :: X) = POk (A ++ U ++ pw_text pw ++ [64], nlen A + nlen U, X).
+Proof. intros dbg. exact (agree_username dbg (fun _ => [])). Qed.
+Print Assumptions C06_parser_agreement_set_username.
+
+(* URL with an authority (C06_frame_path); argument free of '?' and '#', not starting with TAB/LF/CR *)
+Theorem C06_parser_agreement_set_path : forall dbg u p u', wfh u -> has_authority_b u = true -> usv_list p -> auth_end_ok u ->
+  forallb no_qh p = true -> match p with c :: _ => is_tnl c = false | [] => True end ->
+  set_path dbg u p = Some u' ->
+  exists P, path u' = Some P
+    /\ forall X, qh_tail X ->
+         exists hh, parse_path_start dbg CUrlParser (stype u) true (nfirstn (path_start u) (ser u)) (p ++ X)
+                    = POk (nfirstn (path_start u) (ser u) ++ P, hh, X).
+Proof. exact agree_path. Qed.
+Print Assumptions C06_parser_agreement_set_path.
+
+(* scheme other than file (the file host state elides "localhost" and refuses drive letters, Url::set_host does
+   not: F-C02-4); argument free of TAB/LF/CR, ':' '/' '?' '#' '[' ']' (and '\' for a special scheme); no marker *)
+Theorem C06_parser_agreement_set_host : forall dbg hp hpo hd u x u', host_fns_ok hp hpo hd -> wfh u ->
+  (has_authority_b u = false -> path_start u = scheme_end u + 1) ->
+  st_is_file (stype u) = false -> forallb (hostc (st_is_special (stype u))) x = true ->
+  set_host dbg hp hpo hd u (Some x) = Some (u', SOk) ->
+  exists h, ((has_authority_b u = true -> hi_of_host h = HI_None -> port u = None) ->
+             host_str u' = Some (if hi_some (hi_of_host h) then Some (hd h) else None) /\ hosti u' = hi_of_host h)
+    /\ forall X, host_tail (st_is_special (stype u)) X -> parse_host hp hpo (stype u) (x ++ X) = POk (h, X).
+Proof. exact agree_host. Qed.
+Print Assumptions C06_parser_agreement_set_host.
+
+(* the hypotheses are met, and on concrete inputs the composition holds as well: on "a://h:80/p?q#f" each setter
+   succeeds with an argument that needs encoding ("u s", "p:w", "xy", 81, "/a b/../c", "k v", "f g"), and
+   Parser::parse_url on the old serialization with the RAW argument spliced in returns the same record as the
+   setter, field by field (same_as_parse compares all ten fields) *)
+From Coq Require Import String.
+From RU Require Import Proofs.C02_Reach.
+Example C06_parser_agreement_inhabited :
+  forallb (fun c => plainc false c && negb (c =? 58)) (B "u s") = true
+  /\ forallb (plainc false) (B "p:w") = true
+  /\ forallb (hostc false) (B "xy") = true /\ st_is_file (stype qx_u) = false /\ st_is_special (stype qx_u) = false
+  /\ forallb no_qh (B "/a b/../c") = true /\ forallb no_h (B "k v") = true
+  /\ username true qx_u = Some [] /\ has_authority_b qx_u = true
+  /\ same_as_parse (ok_of (set_username true qx_u (B "u s"))) "a://u s@h:80/p?q#f" = true
+  /\ same_as_parse (ok_of (set_password true qx_u (Some (B "p:w")))) "a://:p:w@h:80/p?q#f" = true
+  /\ same_as_parse (ok_of (set_host true qx_hp qx_hp qx_hd qx_u (Some (B "xy")))) "a://xy:80/p?q#f" = true
+  /\ same_as_parse (ok_of (set_port true qx_u (Some 81))) "a://h:81/p?q#f" = true
+  /\ same_as_parse (set_path true qx_u (B "/a b/../c")) "a://h:80/a b/../c?q#f" = true
+  /\ same_as_parse (set_query true qx_u (Some (B "k v"))) "a://h:80/p?k v#f" = true
+  /\ same_as_parse (set_fragment true qx_u (Some (B "f g"))) "a://h:80/p?q#f g" = true
+  /\ (exists u', set_username true qx_u (B "u s") = Some (u', SOk) /\ ser u' = B "a://u%20s@h:80/p?q#f")
+  /\ (exists u', set_path true qx_u (B "/a b/../c") = Some u' /\ ser u' = B "a://h:80/c?q#f").
+Proof. exact agree_inhabited. Qed.
